@@ -110,12 +110,15 @@ enum SenderPl {
     Entry,
     /// power_levels present, no entry, users_default = 50
     Default,
+    /// power_levels present, no `users` map at all, users_default = 50
+    DefaultNoUsers,
     /// no power_levels event, sender is the creator (level 100)
     AbsentCreator,
     /// no power_levels event, sender is someone else (level 0)
     AbsentOther,
 }
-const SENDER_PL: [SenderPl; 4] = [SenderPl::Entry, SenderPl::Default, SenderPl::AbsentCreator, SenderPl::AbsentOther];
+const SENDER_PL: [SenderPl; 5] =
+    [SenderPl::Entry, SenderPl::Default, SenderPl::DefaultNoUsers, SenderPl::AbsentCreator, SenderPl::AbsentOther];
 
 fn sender_for(sp: SenderPl) -> &'static str {
     if sp == SenderPl::AbsentCreator {
@@ -129,6 +132,7 @@ fn base_pl(sp: SenderPl, e: Enc) -> Option<Pl> {
     match sp {
         SenderPl::Entry => Some(Pl::default().user(SENDER, Some(enc(e, 50))).user(CREATOR, Some(enc(e, 100)))),
         SenderPl::Default => Some(Pl::default().field("users_default", Some(enc(e, 50))).user(CREATOR, Some(enc(e, 100)))),
+        SenderPl::DefaultNoUsers => Some(Pl::default().field("users_default", Some(enc(e, 50)))),
         _ => None,
     }
 }
